@@ -227,6 +227,9 @@ def dot_product_attention(
         # bias and mask may broadcast over (some of) the batch dimensions
         if x is None:
           return None
+        if x.ndim < 3:
+          # "broadcastable to [batch..., num_heads, q_length, kv_length]"
+          x = jnp.reshape(x, (1,) * (3 - x.ndim) + x.shape)
         return jnp.broadcast_to(x, (*query_shape[:-3], *x.shape[-3:]))
       bias, mask = expand_batch(bias), expand_batch(mask)
       query, key, value, bias, mask = jax.tree.map(
